@@ -369,7 +369,7 @@ func (u *UpstreamPlain) readMsg(network Network, conn net.Conn, buf []byte) (*dn
 	}
 
 	ret := &dns.Msg{}
-	err = ret.Unpack(buf)
+	err = ret.Unpack(buf[:n])
 	if err != nil {
 		return nil, fmt.Errorf("unpacking msg: %w", err)
 	}
